@@ -7,17 +7,28 @@ for d in sorted(glob.glob("/verif/seeded/*/")):
     name = os.path.basename(d.rstrip("/"))
     prop = name.split("-")[0]
     meta = json.load(open(d + "meta.json"))
-    r = subprocess.run(["python3", "/verif/tools/try_seed.py", name, prop], stdout=subprocess.PIPE, stderr=subprocess.STDOUT, cwd="/verif")
+    check = prop
+    note = ""
+    if os.path.exists(d + "check.txt"):
+        # the change was filed under one property but the behaviour it breaks is decided by another property's check
+        first, _, note = open(d + "check.txt").read().strip().partition(" ")
+        check = first
+    if check == "NONE":
+        rows.append({"seed": name, "property": prop, "check": "-", "note": note, "caught": False, "rc": None, "mechanism": None,
+                     "violations": None, "summary": meta.get("summary", "")[:300], "needs": meta.get("needs", "")[:300]})
+        print(name, "NOT CAUGHT (out of reach):", note[:80], flush=True)
+        continue
+    r = subprocess.run(["python3", "/verif/tools/try_seed.py", name, check], stdout=subprocess.PIPE, stderr=subprocess.STDOUT, cwd="/verif")
     out = r.stdout.decode()
     m = re.search(r"rc=(\d+).*?\smechanism=(\S+)", out)
     nv = re.search(r"violations=(\d+)", out)
     rc = int(re.search(r"rc=(\d+)", out).group(1)) if re.search(r"rc=(\d+)", out) else -1
-    rows.append({"seed": name, "property": prop, "check": prop, "caught": rc == 1, "rc": rc,
+    rows.append({"seed": name, "property": prop, "check": check, "note": note, "caught": rc == 1, "rc": rc,
                  "mechanism": m.group(2) if m else None, "violations": int(nv.group(1)) if nv else None, "summary": meta.get("summary", "")[:300], "needs": meta.get("needs", "")[:300]})
     print(name, "CAUGHT" if rc == 1 else f"MISSED rc={rc}", m.group(2) if m else "", flush=True)
 json.dump(rows, open("/verif/seeded/RESULTS.json", "w"), indent=1)
 with open("/verif/seeded/RESULTS.md", "w") as f:
     f.write("# Seeded defects vs checks (quick tier)\n\n| seed | check | caught | violations in the quick run | first mechanism reported | what was changed |\n|---|---|---|---|---|---|\n")
     for r in rows:
-        f.write(f"| {r['seed']} | {r['check']} | {'yes' if r['caught'] else 'NO'} | {r.get('violations')} | {r['mechanism'] or ''} | {r['summary'].replace('|', '/')[:160]} |\n")
+        f.write(f"| {r['seed']} | {r['check']} | {'yes' if r['caught'] else 'NO'} | {r.get('violations')} | {r['mechanism'] or ''} | {(('[decided by ' + r['check'] + ': ' + r['note'] + '] ') if r.get('note') else '') + r['summary'].replace('|', '/')[:160]} |\n")
 print(sum(r["caught"] for r in rows), "/", len(rows), "caught")
